@@ -1,7 +1,126 @@
 import GoawkModel.Basic
-/-! Line-protocol handler for property C06: one request line (already split into words, without the leading `c06`) → one answer line. -/
-namespace GoawkModel.Drv.C06
+import GoawkModel.C06
+import GoawkModel.C06Regex
+/-!
+Line-protocol handler for property C06.
 
-def handle (_args : List String) : String := "unimplemented"
+Request `rec <rsEmpty 0|1> <op>*`, ops:
+`L:<hex>` (`$0 = s`), `R:<hex>` (record read from input), `G:<num>` (read `$i`), `S:<num>:<hex>` (`$i = v`), `N` (read NF),
+`Mn:<num>` (NF = number), `Ms:<hex>:<num>` (NF = string with numeric value), `F:<hex>:<re|!>` (FS), `O:<hex>` (OFS),
+`C:<hex byte>` / `C:-` / `C:!` (OUTPUTMODE csv with separator / default / invalid), `D` (dump: NF, `$0`, `$1..$NF`),
+`I:<num>:<hex>` (`$i++`, `$i op= k`: read `$i`, then assign the given result), `J:<int>` (`NF++`, `NF += d`: read NF, assign NF+d).
+`<num>` is `n`, `n/d`, `nan`, `inf`, `-inf`.  Answer: one token per observation:
+`_` (no output), `v:<isTrueStr>:<hex>`, `n:<hex shown>:<num>`, `e:<kind>:<int>` (then the history stops).
+-/
+namespace GoawkModel.Drv.C06
+open GoawkModel GoawkModel.C06
+
+def parseInt (s : String) : Option Int :=
+  if s.startsWith "-" then (s.drop 1).toNat?.map (fun n => - Int.ofNat n) else s.toNat?.map Int.ofNat
+
+def parseNum (s : String) : Option Num :=
+  if s = "nan" then some .nan
+  else if s = "inf" then some (.inf false)
+  else if s = "-inf" then some (.inf true)
+  else match s.splitOn "/" with
+    | [a] => (parseInt a).map (fun n => .rat n 1)
+    | [a, b] => match parseInt a, b.toNat? with
+      | some n, some d => some (.rat n d)
+      | _, _ => none
+    | _ => none
+
+def showNum : Num → String
+  | .rat n d => toString n ++ "/" ++ toString d
+  | .nan => "nan"
+  | .inf neg => if neg then "-inf" else "inf"
+
+def showErr : Err → String
+  | .fieldTooLarge i => "e:fieldTooLarge:" ++ toString i
+  | .nfNegative n => "e:nfNegative:" ++ toString n
+  | .nfTooLarge n => "e:nfTooLarge:" ++ toString n
+  | .badRegex => "e:badRegex:0"
+  | .badOutMode => "e:badOutMode:0"
+
+def showOut : Out → String
+  | .none => "_"
+  | .val b t => "v:" ++ (if t then "1" else "0") ++ ":" ++ toHex b
+  | .nf v => "n:" ++ toHex v.shown ++ ":" ++ showNum v.val
+  | .err e => showErr e
+
+inductive Item where
+  | op (o : Op Re)
+  | dump
+  | rmw (i : Num) (v : Bytes)   -- `$i++`, `$i += k` …: `getField i` (value used by the VM), then `setField i v`
+  | nfIncr (d : Int)            -- `NF++`, `NF += d`: `getSpecial(NF)`, then `setSpecial(NF, num(v + d))`
+
+def parseOp (w : String) : Option Item :=
+  match w.splitOn ":" with
+  | ["L", h] => (fromHex h).map (fun b => .op (.setLine b true))
+  | ["R", h] => (fromHex h).map (fun b => .op (.setLine b false))
+  | ["G", n] => (parseNum n).map (fun x => .op (.getField x))
+  | ["S", n, h] => match parseNum n, fromHex h with
+    | some x, some b => some (.op (.setField x b))
+    | _, _ => none
+  | ["N"] => some (.op .getNF)
+  | ["Mn", n] => (parseNum n).map (fun x => .op (.setNF (.num x)))
+  | ["Ms", h, n] => match fromHex h, parseNum n with
+    | some b, some x => some (.op (.setNF (.str b x)))
+    | _, _ => none
+  | ["F", h, re] => match fromHex h with
+    | some b => if re = "!" then some (.op (.setFS b none)) else (parseReWord re).map (fun r => .op (.setFS b (some r)))
+    | none => none
+  | ["O", h] => (fromHex h).map (fun b => .op (.setOFS b))
+  | ["C", h] =>
+    if h = "-" then some (.op (.setOutMode .default))
+    else if h = "!" then some (.op (.setOutMode .invalid))
+    else match fromHex h with
+      | some [c] => some (.op (.setOutMode (.csv c)))
+      | _ => none
+  | ["D"] => some .dump
+  | ["I", n, h] => match parseNum n, fromHex h with
+    | some x, some b => some (.rmw x b)
+    | _, _ => none
+  | ["J", d] => (parseInt d).map .nfIncr
+  | _ => none
+
+def isErr : Out → Bool
+  | .err _ => true
+  | _ => false
+
+/-- run the items; a dump is NF, `$0`, then `$1..$NF` (NF taken as the count the model reports numerically) -/
+def runItems (r : Rec Re) : List Item → List String → List String
+  | [], acc => acc.reverse
+  | .op o :: rest, acc =>
+    let (r', out) := step findAll r o
+    if isErr out then (showOut out :: acc).reverse else runItems r' rest (showOut out :: acc)
+  | .rmw i v :: rest, acc =>
+    let (r1, _) := step findAll r (.getField i)
+    let (r2, out) := step findAll r1 (.setField i v)
+    if isErr out then (showOut out :: acc).reverse else runItems r2 rest (showOut out :: acc)
+  | .nfIncr d :: rest, acc =>
+    let (r1, o1) := step findAll r .getNF
+    let x : Num := match o1 with
+      | .nf v => (match v.val with
+        | .rat n dn => .rat (n + d * (dn : Int)) dn
+        | other => other)
+      | _ => .nan
+    let (r2, out) := step findAll r1 (.setNF (.num x))
+    if isErr out then (showOut out :: acc).reverse else runItems r2 rest (showOut out :: acc)
+  | .dump :: rest, acc =>
+    let (r1, o1) := step findAll r .getNF
+    let (r2, o2) := step findAll r1 (.getField (.rat 0 1))
+    let n := r2.fields.length
+    let (r3, outs) := (List.range n).foldl (fun (st : Rec Re × List String) k =>
+      let (r', o) := step findAll st.1 (.getField (.rat (Int.ofNat (k + 1)) 1))
+      (r', showOut o :: st.2)) (r2, [])
+    runItems r3 rest (outs ++ (showOut o2 :: showOut o1 :: acc))
+
+def handle (args : List String) : String :=
+  match args with
+  | "rec" :: rs :: ops =>
+    match ops.mapM parseOp with
+    | some items => String.intercalate " " ("ok" :: runItems (Rec.init (rs = "1")) items [])
+    | none => "bad-op"
+  | _ => "bad-request"
 
 end GoawkModel.Drv.C06
